@@ -19,13 +19,15 @@ ASSUMPTIONS = [
     "quadrature sum are missing); they are exercised by the search on assembled matrices for real, imaginary and complex k",
     "complex symmetry of V, W and K' = K^T: proved for the kernels (hence for the regular quadrature part with C04); "
     "the singular Duffy part is only measured by the search ('up to singular-quadrature error')",
-    "the hypersingular k^2 n.n term of the assemblers is covered by C06, here only through the search",
+    "hypersingular operators: the factor of the normal-product term (0, -k^2, +w^2) and the kernel used are translated and the "
+    "family laws proved coefficient-wise; the decomposition of W into single-layer pieces is C06's",
 ]
 
 
 def regen(ctx):
     ctx.nb = ctx.translate(py_kernels.numba_kernels)
     ctx.table = ctx.translate(dispatch.factories)
+    ctx.hyp = ctx.translate(py_kernels.hypersingular_coefficients)
 
 
 def _merge(ctx, res, into_corr):
@@ -56,12 +58,13 @@ def _jobs(ctx, strength):
     jobs = [{"job": "dispatch", "strength": strength, "numba": ctx.nb, "table": ctx.table},
             {"job": "boundary", "kinds": ["single_layer"], "strength": strength},
             {"job": "boundary", "kinds": ["double_layer"], "strength": strength},
-            {"job": "potential", "kinds": ["single_layer", "double_layer"], "strength": strength}]
+            {"job": "potential", "kinds": ["single_layer", "double_layer"], "strength": strength},
+            # hypersingular operators on P1/P1 (octahedron: almost all element pairs are singular pairs), every tier
+            {"job": "boundary", "kinds": ["hypersingular"], "strength": strength}]
     if strength == "thorough":
         # adjoint double layer (and with it K' = K^T) and the hypersingular operator: thorough tier only -- every
         # process compiles its own Laplace / modified / Helmholtz assemblers (numba does not cache them)
         jobs.append({"job": "boundary", "kinds": ["adjoint_double_layer"], "strength": strength})
-        jobs.append({"job": "boundary", "kinds": ["hypersingular"], "strength": strength})
     if ctx.nb is None or ctx.table is None:
         ctx.note("translators failed: dispatch correspondence and kernel self-test skipped")
         jobs = jobs[1:]
@@ -131,8 +134,8 @@ def replay(ctx):
     """Re-run the (seeded, deterministic) implementation jobs that produced the recorded case: the quick set, or the
     thorough set when the replay was recorded by a thorough search."""
     regen(ctx)
-    ctx.tier = "thorough" if (ctx.replay or {}).get("tier") == "thorough" or "hypersingular" in str(ctx.replay) or \
-        "adjoint" in str(ctx.replay) or "P1" in str(ctx.replay) else "quick"
+    ctx.tier = "thorough" if (ctx.replay or {}).get("tier") == "thorough" or "adjoint" in str(ctx.replay) or \
+        "DP0/P1" in str(ctx.replay) else "quick"
     correspond(ctx)
     search(ctx, "thorough" if ctx.tier == "thorough" else "quick")
 
@@ -149,6 +152,6 @@ META = {
                   "explicit ValueError witness (lead 9.1).  Matrix bounds for small k and symmetry of the singular "
                   "quadrature are exercised by the search only.",
     "level_note": "Trusted: Coq kernel, three standard real-number axioms, the two translators, DispatchModel.v, the "
-                  "harness. Not proved: small-k matrix bounds, Duffy-rule symmetry, hypersingular k^2 term (C06).",
+                  "harness. Not proved: lift of the small-k bounds to matrix entries, Duffy-rule symmetry.",
     "design_ref": "DESIGN.md §7 C05",
 }
